@@ -1,5 +1,61 @@
-Require Import V.Lib.Base V.Lib.Calls V.C01.Read.
+(* C03 - the aspif reader accepts exactly well-formed aspif and never alters a number.  Statements only.
+   Declarative description: C03/Spec.v (abstract program with unbounded integer fields + layout, render, in_range, calls). *)
+Require Import V.Lib.Base V.Lib.Calls V.C09.Spec V.C01.Read V.C01.ProofsPrim V.C03.Spec V.C03.ProofsSpec V.C03.ProofsProg.
 Local Open Scope Z_scope.
-Example c03_smoke : read_all [97;115;112;32;49;32;48;32;48;10;48;10] = ([CInit false; CBegin; CEnd], Ok).
-Proof. vm_compute. reflexivity. Qed.
-Print Assumptions c03_smoke.
+
+(* every text that is the rendering of an in-range program - under EVERY layout - is accepted and delivers exactly the denoted calls *)
+Theorem c03_complete : forall a, wf_layout a = true -> in_range a = true -> read_all (render a) = (calls a, Ok).
+Proof. exact c03_complete_lemma. Qed.
+Print Assumptions c03_complete.
+
+(* if some field is outside the range of its field - by any amount, with any number of digits -, a directive or theory code is unknown,
+   there is no step or a second step in a non-incremental text, the text is rejected with exactly one error; it is never accepted *)
+Theorem c03_rejects : forall a, wf_layout a = true -> in_range a = false -> exists cs ln, read_all (render a) = (cs, Err ln).
+Proof. exact c03_rejects_lemma. Qed.
+Print Assumptions c03_rejects.
+
+(* the crux: a number token of ANY magnitude and digit count (white space, sign, leading zeros) is matched as exactly the number it
+   denotes when that fits 64 bits and fails otherwise - never a wrapped or truncated value *)
+Theorem c03_number : forall l v r ln, lay_ws l = true -> stop_ok r ->
+  exists ln', ln <= ln' /\
+    a_match_int false (amk (render_num l v ++ r) ln) = (if Z.abs v <=? INT64_MAX then Some v else None, amk r ln').
+Proof. exact match_int_render. Qed.
+Print Assumptions c03_number.
+
+(* hence every field parser accepts a token iff the denoted number lies in the field's range, and then returns that number *)
+Theorem c03_field : forall lo hi l v, - INT64_MAX <= lo -> hi <= INT64_MAX -> lay_ws l = true ->
+  forall r ln, stop_ok r ->
+    match m_range lo hi (amk (render_num l v ++ r) ln) with
+    | ROk x s' => (lo <= v <= hi) /\ x = v /\ rest s' = r
+    | RErr _ => ~ (lo <= v <= hi)
+    end.
+Proof.
+  intros lo hi l v Hlo Hhi Hws r ln Hr.
+  pose proof (spec_range lo hi l v (conj Hlo Hhi) Hws r ln Hr) as H.
+  destruct (m_range lo hi (amk (render_num l v ++ r) ln)); [destruct H as (H1 & H2 & H3); repeat split; try assumption; lia | lia].
+Qed.
+Print Assumptions c03_field.
+
+(* non-vacuity: a laid-out text (tabs, CRLF, '+', leading zeros, comment, odd string separator, body code 2, two steps) *)
+Definition L (ws : list Z) (plus : bool) (z : nat) : lay := mkLay ws plus z.
+Definition sp := L [32] false 0.
+Definition demo : aprog :=
+  mkProg (mkHdr [32; 10] (L [] true 1) (L [9] false 2) (L [32; 32] false 0, 7) 3 true [13; 10])
+         [mkStep [ARule (L [] false 0) (L [9] true 0, 0) (L [13; 10] false 1, [(L [32] true 3, 2147483647)]) (L [32] false 0) (L [32] false 0, [(sp, -1)]);
+                  AComment (L [10] false 0) [32; 104; 105; 32; 49] [13];
+                  AWRule (L [] false 0) (sp, 1) (sp, []) sp true (sp, -5) (sp, [((sp, 2), (sp, 0)); ((sp, -3), (L [9] true 2, 4))]);
+                  AOutput (L [10] false 0) (mkStr sp 120 [32; 10; 48]) (sp, []);
+                  ATAtomG (L [10; 10] false 0) sp (sp, 4294967295) (sp, 0) (sp, [(sp, 4000000000)]) (sp, 1) (sp, 2)]
+                 (L [10] false 1);
+          mkStep [] (L [13] true 0)]
+         [10; 32].
+Example demo_ok : wf_layout demo = true /\ in_range demo = true.
+Proof. split; vm_compute; reflexivity. Qed.
+Example demo_accepted : read_all (render demo) = (calls demo, Ok).
+Proof. apply c03_complete; apply demo_ok. Qed.
+(* the same text with the head atom 2^64+1 (a 20-digit number): rejected, never atom 1 *)
+Definition demo_bad : aprog :=
+  mkProg (p_hdr demo)
+         [mkStep [ARule (L [] false 0) (sp, 0) (sp, [(sp, 18446744073709551617)]) sp (sp, [])] (L [10] false 0)] [10].
+Example demo_bad_rejected : wf_layout demo_bad = true /\ in_range demo_bad = false /\ exists cs ln, read_all (render demo_bad) = (cs, Err ln).
+Proof. split; [vm_compute; reflexivity|]. split; [vm_compute; reflexivity|]. apply c03_rejects; vm_compute; reflexivity. Qed.
